@@ -22,15 +22,15 @@ const ModPath = "github.com/metal-toolbox/audito-maldito"
 
 // Prog is the loaded, type-checked program in SSA form.
 type Prog struct {
-	Repo   string
-	Config string // description of the build configuration
-	Fset   *token.FileSet
-	Pkgs   []*packages.Package // repository packages (roots)
-	All    map[string]*packages.Package
-	SSA    *ssa.Program
-	vtaCG  *callgraph.Graph
-	chaCG  *callgraph.Graph
-	fieldInit map[string]bool // fieldOnlyInitialised memo
+	Repo            string
+	Config          string // description of the build configuration
+	Fset            *token.FileSet
+	Pkgs            []*packages.Package // repository packages (roots)
+	All             map[string]*packages.Package
+	SSA             *ssa.Program
+	vtaCG           *callgraph.Graph
+	chaCG           *callgraph.Graph
+	fieldInit       map[string]bool              // fieldOnlyInitialised memo
 	globalStores    map[*ssa.Global][]*ssa.Store // tableval.go
 	globalAddrTaken map[*ssa.Global]bool
 	tableMemo       map[*ssa.Global][]*SV
